@@ -38,4 +38,4 @@ def register(reg, repo):
                 ("rejects-only-bad", "implies(isstr(name) and strlen(name) >= 1 and strlen(name) <= 80 and "
                                      "not re_search(%r, name), result)" % FORBIDDEN),
             ],
-            raises={}, modifies=None)
+            raises={}, modifies=None, pure=True)
